@@ -614,6 +614,12 @@ def rule_PL7(ctx, tier):
         if not edges:
             rr.fail("no-known-tower-arm:%s" % shortfn(mut), "cannot find the known-tower arm of `%s`" % shortfn(mut), where=b.span)
             continue
+        # ... and only there: a DB write for a tower that is not (any more) in memory acts on links that abandon already
+        # cascaded away — e.g. the reference count of delete_pending_appointment then drops a body another tower still needs
+        unknown = [x for x in ps if not (variant_fact(ctx, b, x, "Some", "HashMap") or truth_fact(ctx, b, x, "contains_key") is True or truth_fact(ctx, b, x, "is_some") is True)]
+        if unknown:
+            rr.fail("disk-only:%s" % shortfn(mut), "`%s` calls `%s` on a path where the tower is not known to be in memory: the database is changed for an unknown / abandoned tower while memory is not" % (shortfn(mut), shortfn(part)), where=b.line_of(unknown[0]))
+            continue
         if all(always_reaches(b, [succ], ps) for sw, succ in edges):
             rr.ok("%s: known tower -> %s" % (shortfn(mut), shortfn(part)), sample={"rule": "PL7", "mutator": mut, "known-tower arm always reaches": part})
         else:
